@@ -436,9 +436,8 @@ class HistSat(Hist):
         if len(mnet.inputs) != n:
             self.violate('C13', 'interface', 'input-count', f'{len(mnet.inputs)} inputs, operands have {n}')
             return
-        pre = (kw.get('left_name') or 'circuit1') + '@'
-        if mnet.inputs != [pre + x for x in ln.inputs]:
-            self.violate('C13', 'interface', 'input-order', f'{mnet.inputs} vs left circuit order {ln.inputs}')
+        # (how the miter names its inputs is not promised; "in the left circuit's order" is judged positionally by the
+        # value oracle below: the i-th miter input is the i-th input of both operands)
         if len(mnet.outputs) != 1:
             self.violate('C13', 'interface', 'output-count', f'{len(mnet.outputs)} outputs')
             return
